@@ -1,41 +1,16 @@
 import Bpmn.Driver.Util
-import Bpmn.Driver.C14
-import Bpmn.Driver.C13
-import Bpmn.Driver.C19
-import Bpmn.Driver.C15
-import Bpmn.Driver.C01
-import Bpmn.Driver.C03
-import Bpmn.Driver.C04
-import Bpmn.Driver.C12
-import Bpmn.Driver.C20
-import Bpmn.Driver.C16
 /-!
-Line-protocol driver. stdin:
+Line-protocol driver, generic part. stdin:
   case begin <family> <caseid> <params…>
   <family-specific lines>
   case end
 stdout: one line per case (`case <id> ok [nontrivial]` | `case <id> diff …` | `case <id> spec …` | `case <id> bad …`)
-and a final `summary …` line.
+and a final `summary …` line. Each property has its own executable (`lean/DriverCxx.lean`, target `driver_Cxx`) so
+that a property's driver never depends on another property's modules.
 -/
-open Bpmn.Driver
+namespace Bpmn.Driver
 
-def dispatch (family : String) (params lines : List String) : CaseResult :=
-  match family with
-  | "c14" => C14.check params lines
-  | "c13" => C13.check params lines
-  | "c19" => C19.check params lines
-  | "c15" => C15.check params lines
-  | "c01" => C01.check params lines
-  | "c03fn" => C03.checkFn params lines
-  | "c03" => C03.checkEng params lines
-  | "c04cond" => C04.checkCond params lines
-  | "c04" => C04.checkEng params lines
-  | "c05" => C04.checkEng params lines
-  | "c05n" => C01.check params lines
-  | "c12" => C12.check params lines
-  | "c20" => C20.check params lines
-  | "c16" => C16.check params lines
-  | _ => { bad := [s!"unknown family {family}"] }
+abbrev Dispatch := String → List String → List String → CaseResult
 
 structure Totals where
   cases : Nat := 0
@@ -65,24 +40,26 @@ def report (out : IO.FS.Stream) (cid : String) (r : CaseResult) (t : Totals) : I
     if !r.specs.isEmpty then t := { t with spec := t.spec + 1 }
   return t
 
-partial def loop (inp out : IO.FS.Stream) (cur : Option (String × String × List String))
+partial def loop (dispatch : Dispatch) (inp out : IO.FS.Stream) (cur : Option (String × String × List String))
     (acc : Array String) (t : Totals) : IO Totals := do
   let line ← inp.getLine
   if line.isEmpty then return t
   let line := line.trimAsciiEnd.toString
   match words line with
-  | "case" :: "begin" :: fam :: cid :: params => loop inp out (some (fam, cid, params)) #[] t
+  | "case" :: "begin" :: fam :: cid :: params => loop dispatch inp out (some (fam, cid, params)) #[] t
   | ["case", "end"] =>
     match cur with
     | some (fam, cid, params) =>
       let t ← report out cid (dispatch fam params acc.toList) t
-      loop inp out none #[] t
-    | none => loop inp out none #[] t
-  | _ => loop inp out cur (acc.push line) t
+      loop dispatch inp out none #[] t
+    | none => loop dispatch inp out none #[] t
+  | _ => loop dispatch inp out cur (acc.push line) t
 
-def main : IO UInt32 := do
+def runDriver (dispatch : Dispatch) : IO UInt32 := do
   let inp ← IO.getStdin
   let out ← IO.getStdout
-  let t ← loop inp out none #[] {}
+  let t ← loop dispatch inp out none #[] {}
   out.putStrLn s!"summary cases={t.cases} ok={t.ok} diff={t.diff} spec={t.spec} bad={t.bad} nontrivial={t.nontrivial} skipped={t.skipped}"
   return 0
+
+end Bpmn.Driver
